@@ -52,7 +52,15 @@ def gen_frame (rng, kind=None, tagged=None, pad=None, payload_len=None,
                win=rng.choice([1000, 0, 65535]), urg=rng.choice([0, 0, 7]))
     raw = F.eth(dst, src, 0x0800, ip(6, l4), vlan, pad)
   elif k == "tcp_opts":
-    l4 = F.tcp(4000, 22, data, options=b"\x02\x04\x05\xb4\x01\x01\x01\x00",
+    # (option blocks as real stacks send them: ending in padding, in a long
+    #  option, in a two-octet option flush with the end of the header)
+    l4 = F.tcp(4000, 22, data, options=rng.choice([
+               b"\x02\x04\x05\xb4\x01\x01\x01\x00",
+               b"\x02\x04\x05\xb4\x01\x03\x03\x08\x01\x01\x04\x02",
+               b"\x02\x04\x05\xb4\x04\x02\x08\x0a" + b"\x00\x00\x00\x01" * 2 + b"\x01\x03\x03\x07",
+               b"\x01\x01\x08\x0a\x11\x22\x33\x44\x55\x66\x77\x88",
+               b"\x01\x01\x04\x02",
+               b"\x01\x01\x05\x0a" + b"\x00\x00\x10\x00\x00\x00\x20\x00"]),
                src=sip, dst=dip)
     raw = F.eth(dst, src, 0x0800, ip(6, l4, options=b"\x94\x04\x00\x00"),
                 vlan, pad)
